@@ -29,6 +29,8 @@ type conn struct {
 	shutdownCtx context.Context
 	requestsWg  sync.WaitGroup
 
+	disablePanicRecovery bool
+
 	reader   *bufio.Reader
 	writer   *bufio.Writer
 	writerMu sync.Mutex // shared lock across all ResponseWriter's to prevent write data races
@@ -147,6 +149,17 @@ func (c *conn) serveRequests() error {
 					c.logger.Debug("requestsWg done", "op", op, "conn", c.connID, "requestID", w.requestID)
 					c.requestsWg.Done()
 				}()
+				if !c.disablePanicRecovery {
+					// a request is served on its own goroutine, so a panic in
+					// its handler has to be caught here; otherwise it would
+					// crash the server.
+					defer func() {
+						if rec := recover(); rec != nil {
+							verifPoint("req.recovered", c.connID, w.requestID)
+							c.logger.Error("Caught panic while serving request", "op", op, "conn", c.connID, "requestID", w.requestID, "panic", fmt.Sprintf("%+v", rec))
+						}
+					}()
+				}
 				c.router.serve(w, r)
 			}()
 		}
